@@ -101,6 +101,11 @@ pub fn to_u128(x: &BigUint) -> u128 {
     u128::try_from(x.clone()).expect("fits u128")
 }
 
+/// saturating conversion (for generated amounts at the edge of the 128-bit range)
+pub fn to_u128_sat(x: &BigUint) -> u128 {
+    u128::try_from(x.clone()).unwrap_or(u128::MAX)
+}
+
 pub fn pow10(e: u32) -> BigUint {
     BigUint::from(10u32).pow(e)
 }
